@@ -549,6 +549,27 @@ var spinShapes = []string{
 	`try { try { while(true){} } finally { } } catch (e) { }`,
 	`for(;;) { try { eval("for(;;);") } catch (e) { } }`,
 	`var o = {toString: function(){ try { for(;;); } catch (e) { } return "" }}; for(;;) { try { "" + o } catch (e) { } }`,
+	// built-ins walking an array-like whose length the script chooses: 2^32-1 iterations, minutes, without a
+	// statement in between; they poll the channel themselves (fix a37105a)
+	`[].indexOf.call({length: 4294967295}, 1)`,
+	`[].lastIndexOf.call({length: 4294967295}, 1)`,
+	`[].forEach.call({length: 4294967295}, function(){})`,
+	`[].every.call({length: 4294967295}, function(){})`,
+	`[].some.call({length: 4294967295}, function(){})`,
+	`[].filter.call({length: 4294967295}, function(){})`,
+	`[].reduce.call({length: 4294967295}, function(){}, 0)`,
+	`[].reduceRight.call({length: 4294967295}, function(){}, 0)`,
+	`[].reduce.call({length: 4294967295}, function(){})`,
+	`[].reduceRight.call({length: 4294967295}, function(){})`,
+	`[].reverse.call({length: 4294967295})`,
+	`[].sort.call({length: 4294967295})`,
+	`[].shift.call({length: 4294967295})`,
+	`[].unshift.call({length: 4294967290}, 1)`,
+	`[].splice.call({length: 4294967295}, 0, 1)`,
+	`[].splice.call({length: 4294967290}, 0, 0, 1)`,
+	`var a = []; a.length = 4294967295; a.length = 0`,
+	`var a = []; a.length = 4294967295; a.sort()`,
+	`try { [].indexOf.call({length: 4294967295}, 1) } catch (e) { }`,
 }
 
 type halt struct{}
